@@ -144,6 +144,67 @@ impl C11 {
     }
 }
 
+impl C11 {
+    /// forked: raise the limit to L, then keep creating farms on one LP token: exactly
+    /// L - (unexpired farms already there) creations succeed, the next one is refused
+    fn limit_probe(&mut self, w: &mut World, s: &Step, rep: &mut Reporter) {
+        let cur = match s.fpost.epoch {
+            Some(e) => e,
+            None => return,
+        };
+        let snap = w.snapshot();
+        let owner = w.owner.clone();
+        let limit = s.fpost.cfg.max_concurrent_farms + self.rng.gen_range(0..14);
+        let fee = coin(0, "uom");
+        let r = w.apply(&fm_config_op(&owner, |p| {
+            p.max_concurrent_farms = Some(limit);
+            p.create_farm_fee = Some(fee.clone());
+        }));
+        if !r.is_ok() {
+            w.restore(&snap);
+            return;
+        }
+        let lps: Vec<String> = s.post.pools.values().map(|p| p.info.lp_denom.clone()).collect();
+        let lp = match lps.choose(&mut self.rng) {
+            Some(l) => l.clone(),
+            None => {
+                w.restore(&snap);
+                return;
+            }
+        };
+        let f0 = fobserve(w);
+        let live0 = f0.farms.values().filter(|x| x.lp_denom == lp && !expired(w, x, &f0.cfg, f0.time)).count() as u32;
+        let creator = w.users[self.rng.gen_range(0..w.users.len())].clone();
+        let mut accepted = 0u32;
+        let mut refused_as = String::new();
+        for k in 0..(limit + 3) {
+            self.n += 1;
+            let reward = coin(1_000 + k as u128, "uusdc");
+            let out = w.apply(&farm_op(
+                &creator,
+                FarmAction::Create { params: FarmParams { lp_denom: lp.clone(), start_epoch: Some(cur + 1), preliminary_end_epoch: Some(cur + 3), curve: None, farm_asset: reward.clone(), farm_identifier: Some(format!("lim{}", self.n)) } },
+                farm_funds(&reward, &fee),
+            ));
+            if out.is_ok() {
+                accepted += 1;
+            } else {
+                refused_as = out.short();
+                break;
+            }
+        }
+        let f1 = fobserve(w);
+        let live1 = f1.farms.values().filter(|x| x.lp_denom == lp && !expired(w, x, &f1.cfg, f1.time)).count() as u32;
+        let expect = limit.saturating_sub(live0);
+        let ctx = json!({"limit": limit, "unexpired_before": live0, "creations_accepted": accepted, "unexpired_after": live1, "next_refused_with": refused_as});
+        if accepted == expect && live1 <= limit {
+            rep.held("limit_probe", hash_of(&(limit.min(16), live0.min(4))), || ctx.clone());
+        } else {
+            rep.failed("limit_probe", None, format!("with max_concurrent_farms = {limit} and {live0} unexpired farms, {accepted} further creations were accepted (expected {expect}); {live1} unexpired farms now"), witness(ctx));
+        }
+        w.restore(&snap);
+    }
+}
+
 impl Monitor for C11 {
     fn step(&mut self, w: &mut World, s: &Step, rep: &mut Reporter) {
         // clause 5 (quiescent): never more unexpired farms per LP token than configured
@@ -166,6 +227,9 @@ impl Monitor for C11 {
             _ => {
                 if s.idx % self.probe_every == 7 {
                     self.exact_payment_probe(w, s, rep);
+                }
+                if s.idx % self.probe_every == 31 {
+                    self.limit_probe(w, s, rep);
                 }
                 return;
             }
